@@ -21,6 +21,9 @@ from ..schema.scalars import MAX_INT, MIN_INT, SPECIFIED_SCALAR_TYPES
 
 
 _INT_RE = re.compile(r"^-?(0|[1-9][0-9]*)$")
+_FLOAT_RE = re.compile(
+    r"^-?(0|[1-9][0-9]*)(\.[0-9]+([eE][+-]?[0-9]+)?|[eE][+-]?[0-9]+)$"
+)
 
 
 def ast_node_from_value(value: Any, input_type: GraphQLType) -> _ast.Value:
@@ -143,12 +146,8 @@ def _scalar_node_from_value(
                     return _ast.IntValue(value=scalar_value)
                 else:
                     return _ast.FloatValue(value=scalar_value)
-            try:
-                fl = float(scalar_value)
-            except ValueError:
-                pass
-            else:
-                return _ast.FloatValue(value=str(fl))
+            if _FLOAT_RE.match(scalar_value):
+                return _ast.FloatValue(value=scalar_value)
 
         return _ast.StringValue(value=scalar_value)
 
